@@ -25,7 +25,7 @@ PROP = {
     "modules": ["GbVerif.Model.Sys", "GbVerif.Model.Timer", "GbVerif.Model.Lcd", "GbVerif.Proofs.SysTotal", "GbVerif.Proofs.BusIo", "GbVerif.Model.Bus", "GbVerif.Model.Cart", "GbVerif.Model.Joypad", "GbVerif.Proofs.BusBasic",
                 "GbVerif.Proofs.BusWf", "GbVerif.Gen.HeaderTables"],
     "exhaustive": {"quick": False, "thorough": False},
-    "rule": "one case = (cartridge type, ROM code, RAM code) x one of 12 banking-register prefixes (incl. bank numbers beyond "
+    "rule": "the 12 banking prefixes are followed by 9 device-state prefixes that need elapsed time or other registers (pseudo-writes 65536/65537 = run_clock_cycles): timer enabled with each clock select, TIMA = 0xFF and the selected divider bit high; LCD on inside a line with all STAT sources; an OAM DMA under way; TIMA one tick before overflow; the Color-only registers 0xFF70 / 0xFF4F / 0xFF4D / 0xFF56 / 0xFF6C / 0xFF51 / 0xFF55 written - 21 prefixes in all; one case = (cartridge type, ROM code, RAM code) x one of 12 banking-register prefixes (incl. bank numbers beyond "
             "the ROM, RAM bank 3 on small RAM, mode 1) x access kind (rd, wr, rdw, wrw) x address set, run in a child process on a "
             "fresh MemoryAreas. quick: 150 configurations x boundary set (44 region boundaries incl. 0xFFFF + 256 seeded random "
             "addresses). thorough: all 504 configurations (7 types x 12 ROM codes x 6 RAM codes) on the boundary set and 38 of "
